@@ -287,9 +287,9 @@ fn run(r: &Run) {
     r.breadcrumbs.store(true, std::sync::atomic::Ordering::Relaxed);
     let seed = r.seed;
     r.enumerate("every_wire_block_length", 256 * t.pick(1, 8), move |i, ev| block_length_event(i, seed, ev));
-    r.prop("junk_banks", t.pick(20_000, 400_000), junk_case, |(run, banks), ev| survives(*run, banks, ev));
-    r.prop("extreme_events", t.pick(2_500, 40_000), move || case(t, 10), case_oracle);
-    crate::props::c12::survival_batch(r, t.pick(300, 3_000));
+    r.prop("junk_banks", t.pick(20_000, 250_000), junk_case, |(run, banks), ev| survives(*run, banks, ev));
+    r.prop("extreme_events", t.pick(2_500, 24_000), move || case(t, 10), case_oracle);
+    crate::props::c12::survival_batch(r, t.pick(300, 2_000));
 }
 
 fn replay(_r: &Run, check: &str, case: &Value) -> Option<Outcome> {
